@@ -1,6 +1,7 @@
 package query
 
 import (
+	"errors"
 	"fmt"
 	"strings"
 
@@ -9,6 +10,10 @@ import (
 
 // Or combines multiple conditions with a logical _OR_ operator.
 func Or(conditions ...Condition) Condition {
+	if len(conditions) == 1 {
+		// A group of one is just that condition, which is also what its text parses back to.
+		return conditions[0]
+	}
 	return &orCond{
 		conditions: conditions,
 	}
@@ -28,6 +33,9 @@ func (c *orCond) complies(acc accessor.Accessor) bool {
 }
 
 func (c *orCond) check() (err error) {
+	if len(c.conditions) == 0 {
+		return errors.New("or group without conditions")
+	}
 	for _, cond := range c.conditions {
 		err = cond.check()
 		if err != nil {
